@@ -257,6 +257,46 @@ PROPS = {
                        "normalize_total, split_aligned, parts_total, encoder_never_panics, process_never_panics; decode_never_panics for any ids "
                        "on any tokenizer. Tied to the code by differential runs of the whole pipeline with overflow checks on.",
     },
+    "C17": {
+        "level": "proof",
+        "rule": "LOADF ops (implementation only, every load in a child process so that aborts and stack overflows are observed): "
+                "structure-aware generated SentencePiece protobufs, Tokenizers JSON, Tekken JSON and Tiktoken text (mostly valid, with boundary "
+                "values: empty vocabulary, zero-length tokens, malformed <0xNN> pieces, NaN/inf scores, ids at u32::MAX, unsupported kinds, "
+                "invalid regexes, invalid UTF-8 specials), their mutations, boundary files, and 16 (quick) / 400 (thorough) truncations, bit "
+                "flips, splices and field-level mutations of each of the 24 shipped files through auto-detection and the explicit loader. "
+                "INITB / DESER ops (model and implementation): native files of 200 / 3000 generated definitions, 12 / 30 mutations each and "
+                "every prefix truncation of every 20th. Verdict: never PANIC / CRASH; a truncated valid native file must be rejected. "
+                "Non-trivial: all.",
+        "trusted_base": CORE_TB + ["modelled and proved: native format (size/magic/version, postcard body), Kitoken::new, character-map blob loader",
+                                   "NOT modelled (explored on the implementation only): the protobuf, JSON and base64 parsers and the four converters' "
+                                   "own logic; allocation failure; resource exhaustion through declared sizes is excluded by the property"],
+        "assumptions": ["external parsers (prost, serde_json, base64, postcard) terminate", "a child process that dies is reported as CRASH"],
+        "explanation": "Lean theorems: the character-map loader is total and checks its size field; decoding a native body only takes bytes off "
+                       "the front (native_dec_within_input), decoded element counts are bounded by the input length (native_sizes_bounded), "
+                       "every proper prefix of a valid native file is rejected (native_truncation_rejected), header checks, invalid regexes "
+                       "rejected. The foreign formats are decided by mutation runs on the real loaders in child processes (found and repaired "
+                       "F8-F10, F17, F19, F20).",
+    },
+    "C19": {
+        "level": "proof",
+        "rule": "ENC / DEC ops whose implementation answers were obtained inside concurrent runs (2, 3, 4, 8, 16 threads released together by a "
+                "barrier on one shared tokenizer, each thread its own shuffled order) on 40 (quick) / 400 (thorough) generated definitions and "
+                "the 24 shipped models, compared with the model (a function of tokenizer and input). IMPLEQ ops (implementation only): call "
+                "histories (every text twice, shuffled, interleaved with decodes and unrelated inputs) and thread runs against isolated calls "
+                "on fresh tokenizers; 3 / 8 fresh processes per shipped file comparing conversion, serialization and hash-map export byte for "
+                "byte (per-process hash seeds); first use of lazily initialised statics raced by k threads in a fresh process; the harness "
+                "built without kitoken's multiversion feature compared on the same inputs. Non-trivial: all.",
+        "trusted_base": CORE_TB + ["translator: STATE_SITES (every interior-mutability / lazy-static / thread-local site in src/, regenerated)",
+                                   "NOT modelled: data races, memory ordering, the regex engine's internal caches and pools, allocator behaviour; "
+                                   "the OS scheduler chooses the interleavings actually run"],
+        "assumptions": ["the external libraries are thread-safe functions of their inputs (their recorded results are compared per call)"],
+        "explanation": "Lean theorems over the session model (everything a call can leave behind): history_independent, prefix_irrelevant, "
+                       "order_irrelevant, interleaving_invariant (each thread's answers in any merged history are those of its own calls "
+                       "alone), state_sites_match (the source has exactly the one lazily initialised static the model lists), "
+                       "export_deterministic (hash iteration order cannot show in an exported definition). The model is stateless by "
+                       "construction, so these are statements about the specification; the correspondence under real threads, processes and "
+                       "both builds is what relates them to the code.",
+    },
 }
 
 
